@@ -134,7 +134,7 @@ def run (ds : List Detector) (px : PkgMap) : RunOut :=
 /-- what `filesystem.Run` and `standalone.Run` delivered -/
 structure ScanIn where
   fsPkgs : List Pkg
-  fsFindings : List Finding          -- an extractor's inventory may carry findings; no built-in one does
+  fsFindings : List Finding          -- an extractor's inventory may carry findings (no built-in one does); validated with the detectors'
   fsStatus : List Status
   stPkgs : List Pkg
   stFindings : List Finding
@@ -177,20 +177,30 @@ structure ScanOut where
   panics : Bool                      -- `sortResults` dereferences a nil Adv / nil ID
   calls : List (String × PkgMap)
 
+/-- what `Scan` holds in `sro.Inventory.Findings` / `sro.Err` when it reaches `newScanResult` (since fix 89f87523):
+the extractors' findings and what `detector.Run` returned are validated TOGETHER
+(`detector.ValidateAdvisories(sro.Inventory.Findings)`); on an inconsistency the findings are cleared and, unless
+`detector.Run` already failed, the validation error becomes the scan's error -/
+def scanFindings (i : ScanIn) : List Finding × Option RunErr :=
+  let r := run i.dets (Index.new (i.fsPkgs ++ i.stPkgs))
+  let findings := i.fsFindings ++ i.stFindings ++ r.findings     -- append(sro.Inventory.Findings, findings...)
+  match validate (findings.map some) [] with
+  | some verr => ([], match r.err with | some e => some e | none => some verr)   -- Findings = nil; if sro.Err == nil { sro.Err = verr }
+  | none => (findings, r.err)
+
 def scanTail (i : ScanIn) : ScanOut :=
   let pkgs := i.fsPkgs ++ i.stPkgs                              -- sro.Inventory.Append(standaloneInv)
-  let exFindings := i.fsFindings ++ i.stFindings
   let exStatus := i.fsStatus ++ i.stStatus
   let px := Index.new pkgs                                      -- packageindex.New(sro.Inventory.Packages)
   let r := run i.dets px
-  let findings := exFindings ++ r.findings                      -- append(sro.Inventory.Findings, findings...)
+  let fe := scanFindings i
   let status := exStatus ++ r.status                            -- append(o.ExtractorStatus, o.DetectorStatus...)
-  { failed := r.err.isSome
-    err := r.err
+  { failed := fe.2.isSome
+    err := fe.2
     pluginStatus := isort statusLt status
     packages := pkgs
-    findings := isort findingLt findings
-    panics := decide (findings.length ≥ 2) && findings.any fun f => (sortKey f).isNone
+    findings := isort findingLt fe.1
+    panics := decide (fe.1.length ≥ 2) && fe.1.any fun f => (sortKey f).isNone   -- unreachable: `C20_no_sort_panic`
     calls := r.calls }
 
 end Scalibr.Detector
